@@ -5035,6 +5035,11 @@ class Entity(object, metaclass=EntityMeta):
                         assert objects_to_save[save_pos] is None
                         objects_to_save[save_pos] = obj
                     obj._save_pos_ = save_pos
+                elif obj._status_ == 'cancelled':
+                    # a created object cancelled by this call gets its place in the save queue back
+                    assert save_pos is not None and objects_to_save[save_pos] is None
+                    objects_to_save[save_pos] = obj
+                    obj._save_pos_ = save_pos
                 obj._status_ = status
                 for cache_index, old_key in undo_list: cache_index[old_key] = obj
 
